@@ -1,4 +1,6 @@
 import Pamqp.Spec.Defs
+import Pamqp.Proofs.Budget
+import Pamqp.Proofs.Taxonomy
 /-!
 # C08 — decoding any byte string terminates with bounded work and memory
 The decoder model recurses on an explicit fuel (one unit per decoder call or loop iteration along
@@ -12,32 +14,32 @@ open Pamqp
 /-- field values: a linear budget is never exhausted, whatever the bytes -/
 theorem C08_value_fuel_suffices (bs : Bytes) (f : Nat) (hf : 2 * bs.length + 1 ≤ f) :
     Decode.embedded f bs ≠ .error .outOfFuel := by
-  sorry
+  exact (Proofs.budget_suffices f).1 bs hf
 
 theorem C08_table_fuel_suffices (bs : Bytes) (f : Nat) (hf : 2 * bs.length + 1 ≤ f) :
     Decode.fieldTable f bs ≠ .error .outOfFuel ∧ Decode.fieldArray f bs ≠ .error .outOfFuel := by
-  sorry
+  exact ⟨(Proofs.budget_suffices f).2.2.2.1 bs hf, (Proofs.budget_suffices f).2.1 bs hf⟩
 
 /-- the answer does not depend on the budget once it is large enough: more fuel, same result -/
 theorem C08_value_fuel_monotone (bs : Bytes) (f g : Nat) (hfg : f ≤ g)
     (h : Decode.embedded f bs ≠ .error .outOfFuel) : Decode.embedded g bs = Decode.embedded f bs := by
-  sorry
+  exact (Proofs.fuel_monotone f).1 bs g hfg h
 
 /-- the whole frame decoder never runs out of budget: for every catalogue and every byte string -/
 theorem C08_unmarshal_terminates (cat : Cat) (bs : Bytes) :
     Frame.unmarshal cat bs ≠ .error .outOfFuel := by
-  sorry
+  exact fun h => PyErr.noConfusion (Proofs.unmarshal_err h)
 
 /-- every array element and every table entry consumes at least one byte: the loops never grow a
 result without consuming input (consumed > 0 unless the input is empty) -/
 theorem C08_progress (f : Nat) (bs : Bytes) (c : Nat) (v : PyVal)
     (h : Decode.embedded f bs = .ok (c, v)) : bs = [] ∨ 0 < c := by
-  sorry
+  exact Proofs.embedded_progress h
 
 /-- the flag-word loop advances: it consumes two bytes per word and never more than supplied -/
 theorem C08_flags_progress (data : Bytes) (n : Nat) (fl : Int)
     (h : Frame.getFlags data 0 0 0 = .ok (n, fl)) : 2 ≤ n ∧ n ≤ data.length := by
-  sorry
+  simpa using Proofs.getFlags_progress data 0 0 0 n fl h
 
 /-- memory: the decoded value is no larger than the input (number of nodes ≤ bytes + 1) -/
 def nodes : PyVal → Nat
